@@ -9,6 +9,7 @@ import (
 	"go/types"
 	"sort"
 	"strings"
+	"sync"
 
 	"golang.org/x/tools/go/ssa"
 )
@@ -31,6 +32,7 @@ type pathSel struct {
 	sort  Sort // datatype sort of the enclosing struct value
 	st    *types.Struct
 	field int
+	ext   string // non-empty: accessor function of an opaque (external) struct
 }
 
 type Addr struct {
@@ -109,6 +111,7 @@ type VC struct {
 	defers   []*ssa.Defer
 	pendingWf [][2]string
 	recDefs  map[string]*recDef
+	mu       sync.Mutex
 	lineBlock []int
 	anc      map[*ssa.BasicBlock]map[int]bool
 }
@@ -413,6 +416,10 @@ func (vc *VC) loadTop(h *Heap, a *Addr) string {
 func (vc *VC) load(h *Heap, a *Addr) Term {
 	v := vc.loadTop(h, a)
 	for _, p := range a.path {
+		if p.ext != "" {
+			v = app(p.ext, v)
+			continue
+		}
 		v = app(fmt.Sprintf("%s.%s", p.sort, p.st.Field(p.field).Name()), v)
 	}
 	return mk(v, vc.u.sortOf(a.typ)).withType(a.typ)
@@ -423,6 +430,9 @@ func (vc *VC) updatePath(top string, path []pathSel, v string) string {
 		return v
 	}
 	p := path[0]
+	if p.ext != "" {
+		panic(unsupportedErr("store into a field of an external struct"))
+	}
 	var args []string
 	for i := 0; i < p.st.NumFields(); i++ {
 		acc := app(fmt.Sprintf("%s.%s", p.sort, p.st.Field(i).Name()), top)
@@ -576,6 +586,8 @@ func (vc *VC) unsupportedf(format string, args ...interface{}) {
 
 // query text for one obligation
 func (vc *VC) query(o *Obligation, produceModel bool) string {
+	vc.mu.Lock()
+	defer vc.mu.Unlock()
 	var b strings.Builder
 	if produceModel {
 		b.WriteString("(set-option :produce-models true)\n")
